@@ -94,6 +94,10 @@ func ZzC15LaterTrack() {
 	delta := zzI64("delta")
 	zzAssume(delta >= 0)
 	zzAssume(delta < 1<<31)
+	if zzParam("BFRAME", 0) == 1 {
+		// (keeps the query within reach when the reordered-frame step is added)
+		zzAssume(delta == 90000)
+	}
 	p1, ok1 := d.Decode(lead, &rtp.Packet{Header: rtp.Header{Timestamp: ts0 + uint32(delta), Marker: true}})
 	zzAssert(ok1, "leading track decodes (2)")
 	zzAssert(p1 == delta, "leading track: PTS = signed 32-bit difference")
